@@ -1,7 +1,7 @@
 (* C13 — per-publisher, per-topic order is preserved to every subscriber. *)
 From Coq Require Import List Arith Bool.
 Import ListNotations.
-From VMQ Require model.Writer proofs.WriterFifo model.Handoff proofs.HandoffProofs model.HandoffShape.
+From VMQ Require model.Writer proofs.WriterProofs proofs.WriterFifo model.Handoff proofs.HandoffProofs model.HandoffShape.
 From VMQ Require Import gen.Extracted model.Route proofs.RouteProofs.
 
 (* The number of routing workers is the one found in topics/memlockfree/topics.go NOW. *)
@@ -63,6 +63,24 @@ Proof. exact HandoffProofs.handoff_no_stall. Qed.
 Print Assumptions C13_handoff_no_stall.
 
 (* the Go functions perform the steps in the order the model's events stand for *)
+(* RE-transmissions keep the order too (model/Writer.v): what was unacknowledged when a connection ended is queued for
+   the next one in the order in which it was transmitted (what that connection had itself still to repeat comes last),
+   goes out one per round, and while any of it waits nothing that has never been transmitted leaves its queue - so the
+   next connection sees m1(dup) m2(dup) m3(dup) m4 m5, never m2(dup) m4 m1(dup) *)
+Theorem C13_retransmissions_in_order_before_new :
+  (forall now r w, Writer.alive w = true -> Writer.p_unack w = [] ->
+     Writer.qrel (Writer.open r (Writer.close now w)) =
+       map (fun x => Writer.enc_unack (snd x)) (rev (Writer.pubout w)) ++ map Writer.enc_unack (Writer.qrel w)) /\
+  (forall now w p r w' o oc, Writer.alive w = true -> Writer.qrel w = p :: r -> Writer.pop_round now w = (oc, w', o) ->
+     (exists o', o = p :: o') /\ Writer.q12 w' = Writer.q12 w /\ Writer.qrel w' = r).
+Proof.
+  split.
+  - exact WriterProofs.redelivery_queued.
+  - intros now w p r w' o oc Ea Hq Hp. split; [exact (WriterProofs.retransmit_first now w p r w' o oc Ea Hq Hp)|].
+    destruct (WriterProofs.retransmit_before_new now w p r w' o oc Ea Hq Hp) as [A [B _]]. auto.
+Qed.
+Print Assumptions C13_retransmissions_in_order_before_new.
+
 From Coq Require String.
 Import String.StringSyntax Ascii.AsciiSyntax.
 Open Scope string_scope.
